@@ -180,7 +180,7 @@ PROPS = {
                       "stream (C17_compose_project/_prefixed/_group/_group_silent, C17_thread_project): in any interleaving of the writes of any mix of "
                       "prefixed, group and raw writers the writes of writer i are exactly (linesOf input_i).map (lineBlock prefix_i), resp. its one "
                       "block, which lies contiguously in the byte stream with nothing of writer i outside it. The driver's acceptors are the model's: "
-                      "accepts / acceptsThreads are exact for Shuffle (C17_accepts_sound, _complete), and so are acceptsPW / acceptsGW for 'some interleaving of the producers' chunks' (C17_acceptsPW_sound / _complete, C17_acceptsGW_sound / _complete). Tie: Gen.Output "
+                      "accepts / acceptsThreads are exact for Shuffle (C17_accepts_sound, _complete), acceptsGW is exact for 'some interleaving of the producers' chunks' (C17_acceptsGW_sound / _complete), acceptsPW is sound (C17_acceptsPW_sound; its search prunes by the buffered beginning of the next line). Tie: Gen.Output "
                       "(lock first in Write / close of both writers, the mutex is a field of the writer, who touches the buffers, ONE sink write in "
                       "writeLine and groupWriter.close, runCommand: wrap, run, close(runErr) once and unconditionally) + the real internal/output writers "
                       "driven with the same chunkings: single, several producer goroutines on one writer, concurrent writers with raw writers in "
